@@ -27,7 +27,7 @@ type DcEnergyMeterRecord struct {
 }
 
 func DecodeDcEnergyMeterRecord(inp []byte) (ret DcEnergyMeterRecord, err error) {
-	if len(inp) < 12 {
+	if len(inp) < 11 {
 		err = ErrInputTooShort
 		return
 	}
@@ -43,23 +43,23 @@ func DecodeDcEnergyMeterRecord(inp []byte) (ret DcEnergyMeterRecord, err error) 
 	ret.AlarmReason = binary.LittleEndian.Uint16(inp[4:6])
 
 	ret.AuxMode = veconst.DcEnergyMeterAuxMode(inp[8] & 0x3)
+	ret.AuxVoltage = math.NaN()
+	ret.Temperature = math.NaN()
 	switch ret.AuxMode {
 	case veconst.DcEnergyMeterAuxModeAuxVoltage:
 		if v := binary.LittleEndian.Uint16(inp[6:8]); v != 0x7FFF {
 			ret.AuxVoltage = float64(int16(v)) / 100
-		} else {
-			ret.AuxVoltage = math.NaN()
 		}
 	case veconst.DcEnergyMeterAuxModeTemperature:
 		if v := binary.LittleEndian.Uint16(inp[6:8]); v != 0xFFFF {
 			ret.Temperature = float64(v) / 100
-		} else {
-			ret.Temperature = math.NaN()
 		}
 	}
 
-	if v := (binary.LittleEndian.Uint32(inp[8:12]) >> 2) & 0x3FFFFF; v != 0x3FFFFF {
-		ret.BatteryCurrent = float64(int32(v)) / 1000
+	// the record is 11 bytes long: read the 22 bits from bytes 8..10 only
+	if v := (binary.LittleEndian.Uint32([]byte{inp[8], inp[9], inp[10], 0x00}) >> 2) & 0x3FFFFF; v != 0x3FFFFF {
+		// sign extend the 22-bit two's complement value
+		ret.BatteryCurrent = float64(int32(v<<10)>>10) / 1000
 	} else {
 		ret.BatteryCurrent = math.NaN()
 	}
